@@ -61,6 +61,7 @@ fn main() {
                 seed,
                 max_all_cuts: get("max-all-cuts", "10").parse().unwrap(),
                 pair_cuts: get("pair-cuts", "0").parse().unwrap(),
+                all_kinds: get("all-kinds", "0") == "1",
                 known_dev: get("known-dev", "C16-1"),
                 stride: get("stride", "1").parse().unwrap(),
             };
